@@ -93,6 +93,12 @@ def run(rep: Report, tier: str) -> None:
     rb = rep.rule("C14.b", "mapped sheets exist in the shipped template, are kept and counted; every kept sheet has a type list", floor=20)
     rc = rep.rule("C14.c", "no row lost or overwritten: shared per-sheet counter, one row per fraction, enough rows appended, header block height", floor=12)
     rd = rep.rule("C14.d", "columns: the cell under each template header receives the computed field it names", floor=28)
+    from ..engine import check_cell_sink
+
+    check_cell_sink(rep, rd)
+    from ..engine import check_type_counter
+
+    check_type_counter(rep, rc)  # the sizing loop trusts get_transaction_type_count(type) to be the number of fractions of that type
     re_ = rep.rule("C14.e", "empty sheets are removed after all assets, exactly when their counter still equals HEADER_ROWS, in reverse order", floor=6)
     for cc, modname in GENS.items():
         mod = prog.package.get(modname)
@@ -144,7 +150,7 @@ def run(rep: Report, tier: str) -> None:
             rep.check(isinstance(hr, int) and hr == last + 1, rc, modname, "Generator.HEADER_ROWS", f"{cc}: HEADER_ROWS == first empty row of '{sheet}'", f"{cc.upper()}: HEADER_ROWS is {hr} but the header block of template sheet '{sheet}' ends at row {last}: the first fraction would overwrite a header row or leave a gap", loc(gen.node))
         _check_generate(rep, rc, re_, m, cc, modname, gen)
         _check_rows(rep, rc, rd, m, cc, modname, gen, sheets)
-    _check_siblings(rep, rep.rule("C14.f", "sibling agreement: the US and IE generators differ only in the tabled constants", floor=1), m)
+    _check_siblings(rep, rep.rule("C14.f", "sibling cross-check (informational): textual difference between the US and IE generators beyond the tabled constants is reported as a note", floor=1), m)
     # which fractions the generators get to see: the filtered gain/loss set, whose iterator applies the window on the entry's own calendar date
     from . import c10
 
@@ -327,7 +333,11 @@ def _check_siblings(rep: Report, rule: str, m) -> None:
     import difflib
 
     diff = [l for l in difflib.unified_diff(a, b, lineterm="", n=0) if l.startswith(("+", "-")) and not l.startswith(("+++", "---"))]
-    rep.check(not diff, rule, GENS["ie"], "<module>", "US and IE generators agree up to the tabled constants (names, date format, dead 'Lost' sheet name)", f"the two generators differ structurally beyond the tabled constants: {diff[:6]}: one of the siblings lost or gained behaviour (routing entry, cell write, sizing)", "")
+    # Cross-check only (a pointer for the reader, never a verdict): each generator is decided on its own by C14.a-e, and a one-sided edit that keeps behaviour
+    # (a local introduced in one sibling, say) makes the texts differ without breaking anything.
+    if diff:
+        rep.note(f"sibling cross-check: the US and IE generators differ beyond the tabled constants ({len(diff)} lines, e.g. {diff[:2]}); each is judged on its own by C14.a-e")
+    rep.ok(rule, "US / IE sibling cross-check computed (informational)", f"{len(diff)} differing lines beyond the tabled constants")
 
 
 def _tuples(t: Any):
